@@ -4,9 +4,10 @@ Request : <op> <codec> <level> <hex-payload>      op in {c, d}; codec in {deflat
 Response: OK <hex>   |   ERR <message>
 deflate = raw RFC 1951 stream (zlib wbits=-15); bzip2 / xz = standard streams; zstandard via the `zstd` CLI.
 """
-import sys, zlib, bz2, lzma, subprocess, shutil
+import os, sys, zlib, bz2, lzma, subprocess, shutil
 
-ZSTD = shutil.which("zstd")
+# the CLI may live outside PATH (in this sandbox it is conda's)
+ZSTD = shutil.which("zstd") or next((p for p in ("/usr/bin/zstd", "/usr/local/bin/zstd", "/root/miniconda/bin/zstd", "/opt/conda/bin/zstd") if os.path.exists(p)), None)
 
 def run(op, codec, level, data):
     if codec == "deflate":
